@@ -1,4 +1,4 @@
-import json, os, random, sys, time
+import json, os, random, re, sys, time
 from . import core
 from .core import log
 
@@ -285,11 +285,17 @@ def _run_scripts(prop, tier, seed, rng, replay, problems, ev, cov, names, discha
         # carries the implementation's answers): it stays a violation even when it does not repeat — the
         # defects behind 7d9bd97 and 28593c9 showed up in one run out of many.  Only a bare model/implementation
         # difference that never repeats is set aside as a transient.
+        def oracle_alone(ent):
+            # the oracle keeps part of its state by running the model on the script: its verdict is a fact about
+            # the implementation only while model and implementation have agreed up to the failing line
+            d = core.first_diff(ent[2], ent[3])
+            m_ = re.search(r" at line (\d+) ", ent[5])
+            return d is None or (m_ is not None and d[0] + 1 > int(m_.group(1)))
         for lst, sticky in ((violations, True), (disagreements, False)):
             keep = []
             for ent in lst:
                 if ent[0] is fam and len([e for e in keep if e[0] is fam]) < 12 and not reproduces(ent[1]):
-                    if sticky:
+                    if sticky and oracle_alone(ent):
                         keep.append(ent[:5] + (ent[5] + " [observed in this run; did not repeat in 3 fresh runs of the script: schedule- or value-dependent]",))
                     else:
                         transients.append({"family": fam.name, "note": ent[5], "script": ent[1][:60]})
